@@ -29,6 +29,7 @@ type jcase struct {
 	Seed    uint64 `json:"seed"`
 	Version int    `json:"version,omitempty"` // index into the history's versions (1-based); 0 = DeleteRange case
 	Special string `json:"special,omitempty"`
+	N       int    `json:"n,omitempty"` // which DeleteRange of the history
 }
 
 func shutdown() {
@@ -276,28 +277,27 @@ func (w *world) versionCase(run *lib.Run, seed uint64, v int, rng *lib.Rand, nq 
 			multi = resList("ok", pairItems(bd, ks, vs))
 		}
 	}
-	// intervals: existing keys, neighbours, prefixes, extensions, whole space, empty
-	pickEnd := func() string {
-		k := w.universe[rng.Intn(len(w.universe))]
-		switch rng.Intn(6) {
-		case 0:
-			if len(k) > 1 {
-				return k[:len(k)-1]
-			}
-		case 1:
-			return k + string(rune('0'+rng.Intn(10)))
-		case 2:
-			b := []byte(k)
-			b[len(b)-1]++
-			return string(b)
-		case 3:
-			b := []byte(k)
-			if b[len(b)-1] > '0' {
-				b[len(b)-1]--
-			}
-			return string(b)
+	// intervals: ends drawn from the keys visible at this version (so that lo and hi are themselves
+	// members of the answer), from the other keys, and from their prefixes, extensions and neighbours;
+	// the whole space, single keys, empty intervals
+	var visible []string
+	for _, k := range w.universe {
+		if w.visible(v, k) {
+			visible = append(visible, k)
 		}
-		return k
+	}
+	base := func() string {
+		if len(visible) > 0 && rng.Chance(0.6) {
+			return visible[rng.Intn(len(visible))]
+		}
+		return w.universe[rng.Intn(len(w.universe))]
+	}
+	pickEnd := func() string {
+		k := base()
+		if rng.Chance(0.5) {
+			return k
+		}
+		return neighbour(rng, k)
 	}
 	var qs []string
 	for n := 0; n < nq; n++ {
@@ -306,10 +306,17 @@ func (w *world) versionCase(run *lib.Run, seed uint64, v int, rng *lib.Rand, nq 
 		case n == 0:
 			lo, hi = "0", "z" // whole space
 		case n == 1:
+			lo = base()
 			hi = lo // single key
+		case n == 2:
+			lo, hi = base(), base() // both ends stored keys
+			if lo > hi {
+				lo, hi = hi, lo
+			}
 		case lo > hi && rng.Chance(0.8):
 			lo, hi = hi, lo
 		}
+		run.Count("interval-ends-visible:" + endsVisible(lo, hi, visible))
 		run.Count("interval:" + intervalKind(lo, hi, w.universe))
 		ta, tb := tkeyOf(lo), tkeyOf(hi)
 		rcls, rItems := "ok", []string(nil)
@@ -366,6 +373,55 @@ func (w *world) versionCase(run *lib.Run, seed uint64, v int, rng *lib.Rand, nq 
 	run.Add("version", term, jcase{Kind: "version", Seed: seed, Version: v, Special: w.special}, fmt.Sprintf("version/%d/%d", seed, v))
 }
 
+func (w *world) visible(v int, k string) bool {
+	b, err := w.db.Get(w.ctx(v), tkeyOf(k))
+	return err == nil && b != nil
+}
+
+// neighbour: a prefix, an extension, the successor or the predecessor string of k
+func neighbour(rng *lib.Rand, k string) string {
+	switch rng.Intn(4) {
+	case 0:
+		if len(k) > 1 {
+			return k[:len(k)-1]
+		}
+		return k
+	case 1:
+		return k + string(rune('0'+rng.Intn(10)))
+	case 2:
+		b := []byte(k)
+		b[len(b)-1]++
+		return string(b)
+	}
+	b := []byte(k)
+	if b[len(b)-1] > '0' {
+		b[len(b)-1]--
+	}
+	return string(b)
+}
+
+func endsVisible(lo, hi string, visible []string) string {
+	in := func(s string) bool {
+		for _, k := range visible {
+			if k == s {
+				return true
+			}
+		}
+		return false
+	}
+	switch {
+	case lo == hi && in(lo):
+		return "single-stored-key"
+	case in(lo) && in(hi):
+		return "both"
+	case in(hi):
+		return "hi-only"
+	case in(lo):
+		return "lo-only"
+	}
+	return "neither"
+}
+
 func intervalKind(lo, hi string, universe []string) string {
 	in := func(s string) bool {
 		for _, k := range universe {
@@ -390,50 +446,184 @@ func intervalKind(lo, hi string, universe []string) string {
 	return "neither-existing"
 }
 
-func (w *world) deleteRangeCase(run *lib.Run, seed uint64, rng *lib.Rand) {
-	open := w.h.OpenList()
-	if len(open) == 0 {
-		run.Count("delete-range:skipped-no-open-version")
-		return
+// parents of every version, from the recorded child requests
+func (w *world) parents() map[int][]int {
+	ps := map[int][]int{}
+	n := 1
+	for i, o := range w.h.Ops {
+		if o.Op == "child" && w.h.Obs[i] == "OAccepted" {
+			n++
+			ps[n] = o.Parents
+		}
 	}
-	v := open[rng.Intn(len(open))]
-	bd := lib.NewBinder()
-	before := w.dump()
-	table := w.table(bd, v, before)
-	lo := w.universe[rng.Intn(len(w.universe))]
-	hi := w.universe[rng.Intn(len(w.universe))]
-	if lo > hi {
-		lo, hi = hi, lo
-	}
-	if rng.Chance(0.3) {
-		lo, hi = "0", "z"
-	}
-	reads := func() string {
-		var ss []string
-		for vv := 1; vv <= len(w.h.UUIDs); vv++ {
+	return ps
+}
+
+// deleteRangeCases: several db.DeleteRange calls per history, each on an uncommitted version that sees
+// keys (a fresh child of a committed version when needed), with both interval ends drawn from the
+// keys visible there: hi = a stored key, lo = a stored key, lo = hi = a stored key, neighbours.
+// Point reads of every key at the version, its parents, its siblings and the root, range reads at the
+// version, and (last case) reads at a new descendant.  only > 0: emit just that case (replay).
+func (w *world) deleteRangeCases(run *lib.Run, seed uint64, rng *lib.Rand, count, only int) {
+	for n := 1; n <= count; n++ {
+		emit := only == 0 || only == n
+		// an open version that sees something
+		v := 0
+		for _, o := range w.h.OpenList() {
 			for _, k := range w.universe {
-				tk := tkeyOf(k)
-				g := w.dbGet(vv, tk)
-				ss = append(ss, fmt.Sprintf("(%d, %s, %s)", w.verID(vv), bd.Bytes(tk), g))
+				if w.visible(o, k) {
+					v = o
+				}
 			}
 		}
-		return "[" + strings.Join(ss, "; ") + "]"
-	}
-	rb := reads()
-	ok := true
-	pan, _ := lib.Recover(func() {
-		if err := w.db.DeleteRange(w.ctx(v), tkeyOf(lo), tkeyOf(hi)); err != nil {
+		if v == 0 || rng.Chance(0.4) {
+			if lk := w.h.LockedList(); len(lk) > 0 {
+				how := "newversion"
+				if rng.Bool() {
+					how = "branch"
+				}
+				before := len(w.h.UUIDs)
+				w.h.Child(how, []int{lk[rng.Intn(len(lk))]})
+				if len(w.h.UUIDs) > before {
+					v = len(w.h.UUIDs)
+				}
+			}
+		}
+		if v == 0 {
+			if op := w.h.OpenList(); len(op) > 0 {
+				v = op[0]
+			} else {
+				run.Count("delete-range:skipped-no-open-version")
+				return
+			}
+		}
+		var visible []string
+		for _, k := range w.universe {
+			if w.visible(v, k) {
+				visible = append(visible, k)
+			}
+		}
+		pick := func() string {
+			if len(visible) > 0 {
+				return visible[rng.Intn(len(visible))]
+			}
+			return w.universe[rng.Intn(len(w.universe))]
+		}
+		lo, hi := pick(), pick()
+		mode := ""
+		switch (n + int(seed%3)) % 4 {
+		case 0:
+			hi = lo
+			mode = "single-stored-key"
+		case 1:
+			mode = "both-stored"
+		case 2:
+			lo = neighbour(rng, lo)
+			mode = "hi-stored"
+		default:
+			hi = neighbour(rng, hi)
+			mode = "lo-stored"
+		}
+		if lo > hi {
+			lo, hi = hi, lo
+		}
+		// versions read: v, its parents, its siblings, the root
+		ps := w.parents()
+		vs := []int{v}
+		add := func(x int) {
+			for _, y := range vs {
+				if y == x {
+					return
+				}
+			}
+			if len(vs) < 5 {
+				vs = append(vs, x)
+			}
+		}
+		for _, p := range ps[v] {
+			add(p)
+		}
+		for c, cps := range ps {
+			for _, p := range cps {
+				for _, q := range ps[v] {
+					if p == q && c != v {
+						add(c)
+					}
+				}
+			}
+		}
+		add(1)
+		sort.Ints(vs[1:])
+		bd := lib.NewBinder()
+		before := w.dump()
+		table := w.table(bd, v, before)
+		reads := func() string {
+			var ss []string
+			for _, vv := range vs {
+				for _, k := range w.universe {
+					tk := tkeyOf(k)
+					ss = append(ss, fmt.Sprintf("(%d, %s, %s)", w.verID(vv), bd.Bytes(tk), w.dbGet(vv, tk)))
+				}
+			}
+			return "[" + strings.Join(ss, "; ") + "]"
+		}
+		keysIn := func(a, b storage.TKey) string {
+			cls, items := "ok", []string(nil)
+			pan, _ := lib.Recover(func() {
+				tks, err := w.db.KeysInRange(w.ctx(v), a, b)
+				if err != nil {
+					cls = "err"
+					return
+				}
+				for _, tk := range tks {
+					items = append(items, bd.Bytes(tk))
+				}
+			})
+			if pan {
+				cls = "panic"
+			}
+			return resList(cls, items)
+		}
+		rb := reads()
+		kb := keysIn(keyvalue.MinTKey, keyvalue.MaxTKey)
+		ok := true
+		pan, _ := lib.Recover(func() {
+			if err := w.db.DeleteRange(w.ctx(v), tkeyOf(lo), tkeyOf(hi)); err != nil {
+				ok = false
+			}
+		})
+		if pan {
 			ok = false
 		}
-	})
-	if pan {
-		ok = false
+		after := w.dump()
+		ra := reads()
+		ka := keysIn(keyvalue.MinTKey, keyvalue.MaxTKey)
+		kin := keysIn(tkeyOf(lo), tkeyOf(hi))
+		desc := "[]"
+		if n == count {
+			// a descendant: commit v, create a child, read every key there
+			w.h.Commit(v)
+			nb := len(w.h.UUIDs)
+			w.h.Child("newversion", []int{v})
+			if len(w.h.UUIDs) > nb {
+				c := len(w.h.UUIDs)
+				var ss []string
+				for _, k := range w.universe {
+					tk := tkeyOf(k)
+					ss = append(ss, fmt.Sprintf("(%s, %s)", bd.Bytes(tk), w.dbGet(c, tk)))
+				}
+				desc = "[" + strings.Join(ss, "; ") + "]"
+				run.Count("delete-range:descendant-read")
+			}
+		}
+		if !emit {
+			continue
+		}
+		term := bd.Wrap(fmt.Sprintf("CDeleteRange %d %d\n   %s\n   %s\n   %s %s %s\n   %s\n   %s\n   %s\n   %s %s %s\n   %s", w.inst, w.verID(v), coqStore(bd, before), table,
+			bd.Bytes(tkeyOf(lo)), bd.Bytes(tkeyOf(hi)), lib.CoqBool(ok), coqStore(bd, after), rb, ra, kb, ka, kin, desc))
+		run.Count("delete-range-ends:" + mode + "/visible-now:" + endsVisible(lo, hi, visible))
+		run.Add("delete-range", term, jcase{Kind: "deleterange", Seed: seed, Special: w.special, N: n}, fmt.Sprintf("deleterange/%d/%d", seed, n))
 	}
-	after := w.dump()
-	ra := reads()
-	term := bd.Wrap(fmt.Sprintf("CDeleteRange %d %d\n   %s\n   %s\n   %s %s %s\n   %s\n   %s\n   %s", w.inst, w.verID(v), coqStore(bd, before), table,
-		bd.Bytes(tkeyOf(lo)), bd.Bytes(tkeyOf(hi)), lib.CoqBool(ok), coqStore(bd, after), rb, ra))
-	run.Add("delete-range", term, jcase{Kind: "deleterange", Seed: seed, Special: w.special}, fmt.Sprintf("deleterange/%d", seed))
 }
 
 // build one random branched history; special adds the empty-value shape
@@ -517,7 +707,7 @@ func main() {
 	defer shutdown()
 
 	hist := 0
-	doHistory := func(seed uint64, special string, onlyVersion int, onlyDelete bool) {
+	doHistory := func(seed uint64, special string, onlyVersion int, onlyDelete bool, onlyN int) {
 		hist++
 		w := build(seed, hist, special)
 		rng := lib.NewRand(seed ^ 0x5a5a)
@@ -539,7 +729,11 @@ func main() {
 			w.versionCase(run, seed, v, sub, nq)
 		}
 		if onlyVersion == 0 {
-			w.deleteRangeCase(run, seed, rng)
+			nd := 3
+			if o.Thorough() {
+				nd = 4
+			}
+			w.deleteRangeCases(run, seed, rng, nd, onlyN)
 		}
 		run.Count("history-special:" + special)
 	}
@@ -550,7 +744,7 @@ func main() {
 			fmt.Fprintln(os.Stderr, err)
 			os.Exit(2)
 		}
-		doHistory(c.Seed, c.Special, c.Version, c.Kind == "deleterange")
+		doHistory(c.Seed, c.Special, c.Version, c.Kind == "deleterange", c.N)
 		run.Finish("c05case", "replay", tail)
 		shutdown()
 		os.Exit(0)
@@ -573,7 +767,7 @@ func main() {
 			special = "empty"
 		}
 		seed := rng.U64()
-		doHistory(seed, special, 0, false)
+		doHistory(seed, special, 0, false, 0)
 	}
 	run.Finish("c05case",
 		"random branched histories (puts, deletes, batch writes, commits, branches, merges; 12 numbered keys plus prefix/extension/neighbour keys; every third history with empty values); per version: db.Get and GET key/k of every key, keys, keyvalues, and intervals with ends drawn from existing keys, their prefixes, extensions and neighbours, the whole space, single keys and empty intervals, through GetRange, KeysInRange, keyrange, keyrangevalues json/tar; one DeleteRange per history; distinct by (history seed, version)",
